@@ -20,6 +20,13 @@ def t_simplify(tree):
     return simplify_chained_calls().visit(tree)
 
 
+def t_simplify_fresh(tree):
+    "as a fresh process would: the simplifier's counter for made-up names starts at 0 (user names of the form arg_<n> can then meet generated ones)"
+    import func_adl.ast.function_simplifier as fs
+    fs.argument_var_counter = 0
+    return fs.simplify_chained_calls().visit(tree)
+
+
 def t_fnform(tree):
     from func_adl.ast.func_adl_ast_utils import change_extension_functions_to_calls
     return change_extension_functions_to_calls(tree)
@@ -44,7 +51,7 @@ def t_backend_pipeline(tree):
     return t_simplify(t_aggregate(t_fnform(tree)))
 
 
-TRANSFORMERS = {"simplify": t_simplify, "fnform": t_fnform, "fnform_simplify": t_fnform_simplify, "aggregate": t_aggregate,
+TRANSFORMERS = {"simplify": t_simplify, "simplify_fresh": t_simplify_fresh, "fnform": t_fnform, "fnform_simplify": t_fnform_simplify, "aggregate": t_aggregate,
                 "sugar": t_sugar, "backend": t_backend_pipeline}
 
 BUILTIN_FREE = {"ds", "Select", "Where", "SelectMany", "First", "Count", "len", "Sum", "Max", "Min", "Aggregate", "MetaData", "abs", "fn_i_calib"}
